@@ -21,7 +21,7 @@ for d in sorted(os.listdir(os.path.join(V, 'seeded'))):
 with open(os.path.join(V, 'seeded', 'README.md'), 'w') as fp:
     fp.write('# Seeded changes (written by independent sub-agents from the property text only; each confirmed in a scratch worktree)\n\n')
     fp.write('`tools/seed_eval.py` confirmed for every entry: the 30 baseline tests still pass with the change, the demonstration fails with it and passes without it. '
-             '"own check" is the verdict of the quick tier of the property the change was written against (seed 0), as re-evaluated with the final machinery on the final /repo; "also caught by" lists other checks recorded in the change's meta.json and, for rounds 1-2, `seeded/MATRIX.json` (all checks against all changes at scale 0.3; not repeated for later rounds). A `(thorough: ...)` note gives the thorough-tier verdict where the quick tier missed for sampling reasons. Why each remaining miss is a miss is in DESIGN.md section 12.\n\n')
+             '"own check" is the verdict of the quick tier of the property the change was written against (seed 0), as re-evaluated with the final machinery on the final /repo; "also caught by" lists other checks recorded in the meta.json of the change and, for rounds 1-2, `seeded/MATRIX.json` (all checks against all changes at scale 0.3; not repeated for later rounds). A `(thorough: ...)` note gives the thorough-tier verdict where the quick tier missed for sampling reasons. Why each remaining miss is a miss is in DESIGN.md section 12.\n\n')
     fp.write('| id | property | change | needs | own check | violated clauses | also caught by |\n|---|---|---|---|---|---|---|\n')
     for r in rows:
         fp.write('| %s | %s | %s | %s | %s | %s | %s |\n' % r)
